@@ -235,6 +235,29 @@ def _world(vs, ctx=None, sym_affine=False):
             for idx in real_np.ndindex(*a.shape):
                 a[idx] = SRl(z3.Real("unset_" + "_".join(map(str, idx))))
             return SArray(a, "float64")
+
+        # float matrices the code builds to fill in afterwards: exact-rational elements, so that symbolic entries can be stored
+        def _const(self, arr):
+            a = real_np.empty(arr.shape, dtype=object)
+            for idx in real_np.ndindex(*a.shape):
+                a[idx] = SRl(z3.Q(*float(arr[idx]).as_integer_ratio()))
+            return SArray(a, "float64")
+
+        def eye(self, *a, **k):
+            r = real_np.eye(*a, **k)
+            return self._const(r) if r.dtype == real_np.float64 else r
+
+        def identity(self, *a, **k):
+            r = real_np.identity(*a, **k)
+            return self._const(r) if r.dtype == real_np.float64 else r
+
+        def zeros(self, *a, **k):
+            r = real_np.zeros(*a, **k)
+            return self._const(r) if r.dtype == real_np.float64 and r.ndim == 2 else r
+
+        def ones(self, *a, **k):
+            r = real_np.ones(*a, **k)
+            return self._const(r) if r.dtype == real_np.float64 and r.ndim == 2 else r
     vrnp = VRNP(exact_int=True)
     vrnp.asanyarray = W.npx.asanyarray
 
